@@ -1,8 +1,793 @@
-// Package c12: stub (property not built yet).
+// Package c12 is the correspondence harness of property C12 (replicated writes are acknowledged only
+// at quorum; reads survive replica loss).
+//
+// The implementation side is the real replica storage of perkeep, built through
+// blobserver.CreateStorage("replica", loader, config) over harness sub-stores: memory stores behind a
+// fault-injecting blobserver.Storage wrapper (error / wrong size / store-then-error; every upload waits
+// at a gate, the gates are opened in the arrival order named by the op, and the next gate is opened only
+// after ReceiveBlob has provably consumed the previous result – see quiesce).
 package c12
 
-import "verifharness/hk"
+import (
+	"bytes"
+	"context"
+	"errors"
+	"fmt"
+	"io"
+	"os"
+	"reflect"
+	"regexp"
+	"runtime"
+	"sort"
+	"strconv"
+	"strings"
+	"sync"
+	"sync/atomic"
+	"time"
 
-func NewExec() func(w []string) string { return func([]string) string { return "bad-op" } }
+	"go4.org/jsonconfig"
+	"perkeep.org/pkg/blob"
+	"perkeep.org/pkg/blobserver"
+	"perkeep.org/pkg/blobserver/memory"
+	_ "perkeep.org/pkg/blobserver/replica"
 
-func Run(r *hk.Run) { r.Note("not built yet") }
+	"verifharness/hk"
+)
+
+// ---------------------------------------------------------------------------------------------
+// sub-stores: memory store + fault injection + gates
+
+type injErr struct{ pos int }
+
+func (e *injErr) Error() string { return fmt.Sprintf("injected failure of replica %d", e.pos) }
+
+var errDown = errors.New("injected: replica down")
+
+type recvPlan struct {
+	posOf   map[int]int // sub-store id -> position in the write list
+	kind    []string    // by position
+	gate    []chan struct{}
+	done    []chan struct{}
+	entered chan int
+}
+
+type statPlan struct {
+	posOf map[int]int // sub-store id -> position in the read list
+	gate  []chan struct{}
+	done  []chan struct{}
+}
+
+type sub struct {
+	id      int
+	mem     *memory.Storage
+	down    atomic.Bool
+	rplan   atomic.Pointer[recvPlan]
+	splan   atomic.Pointer[statPlan]
+	fetches *atomic.Int64
+}
+
+var _ blobserver.Storage = (*sub)(nil)
+
+func (s *sub) Fetch(ctx context.Context, br blob.Ref) (io.ReadCloser, uint32, error) {
+	s.fetches.Add(1)
+	if s.down.Load() {
+		return nil, 0, errDown
+	}
+	return s.mem.Fetch(ctx, br)
+}
+
+func (s *sub) ReceiveBlob(ctx context.Context, br blob.Ref, src io.Reader) (blob.SizedRef, error) {
+	p := s.rplan.Load()
+	if p == nil {
+		return s.mem.ReceiveBlob(ctx, br, src)
+	}
+	pos, ok := p.posOf[s.id]
+	if !ok {
+		return blob.SizedRef{}, errors.New("harness: upload to a sub-store outside the write list")
+	}
+	data, rerr := io.ReadAll(src)
+	p.entered <- pos
+	<-p.gate[pos]
+	defer close(p.done[pos])
+	if rerr != nil {
+		return blob.SizedRef{}, rerr
+	}
+	if err := ctx.Err(); err != nil {
+		// what a remote replica does when the caller has gone away
+		return blob.SizedRef{}, err
+	}
+	store := func() (blob.SizedRef, error) { return s.mem.ReceiveBlob(ctx, br, bytes.NewReader(data)) }
+	switch p.kind[pos] {
+	case "ok":
+		return store()
+	case "ws":
+		sb, err := store()
+		sb.Size++
+		return sb, err
+	case "w0":
+		return blob.SizedRef{Ref: br, Size: uint32(len(data)) + 1}, nil
+	case "es":
+		store()
+		return blob.SizedRef{}, &injErr{pos}
+	default: // "err"
+		return blob.SizedRef{}, &injErr{pos}
+	}
+}
+
+func (s *sub) StatBlobs(ctx context.Context, blobs []blob.Ref, fn func(blob.SizedRef) error) error {
+	if p := s.splan.Load(); p != nil {
+		if pos, ok := p.posOf[s.id]; ok {
+			<-p.gate[pos]
+			defer close(p.done[pos])
+		}
+	}
+	if s.down.Load() {
+		return errDown
+	}
+	// the memory store ignores ctx; a cancelled errgroup context must not hide reports
+	return s.mem.StatBlobs(ctx, blobs, fn)
+}
+
+func (s *sub) EnumerateBlobs(ctx context.Context, dest chan<- blob.SizedRef, after string, limit int) error {
+	if s.down.Load() {
+		close(dest)
+		return errDown
+	}
+	return s.mem.EnumerateBlobs(ctx, dest, after, limit)
+}
+
+func (s *sub) RemoveBlobs(ctx context.Context, blobs []blob.Ref) error {
+	if s.down.Load() {
+		return errDown
+	}
+	return s.mem.RemoveBlobs(ctx, blobs)
+}
+
+// the wrappers are pooled: blobserver.GetHub keeps every storage it has seen in a global map
+var (
+	poolMu  sync.Mutex
+	subPool []*sub
+)
+
+func pooledSub(i int, fetches *atomic.Int64) *sub {
+	poolMu.Lock()
+	defer poolMu.Unlock()
+	for len(subPool) <= i {
+		subPool = append(subPool, &sub{id: len(subPool)})
+	}
+	s := subPool[i]
+	s.mem = &memory.Storage{}
+	s.down.Store(false)
+	s.rplan.Store(nil)
+	s.splan.Store(nil)
+	s.fetches = fetches
+	return s
+}
+
+// loader resolves "/sN/" to sub-store N
+type loader struct{ subs []*sub }
+
+func (l *loader) FindHandlerByType(string) (string, any, error) {
+	return "", nil, blobserver.ErrHandlerTypeNotFound
+}
+func (l *loader) AllHandlers() (map[string]string, map[string]any) { return nil, nil }
+func (l *loader) MyPrefix() string                                 { return "/replica/" }
+func (l *loader) BaseURL() string                                  { return "http://localhost" }
+func (l *loader) GetHandlerType(string) string                     { return "" }
+func (l *loader) GetHandler(prefix string) (any, error)            { return l.GetStorage(prefix) }
+func (l *loader) GetStorage(prefix string) (blobserver.Storage, error) {
+	if strings.HasPrefix(prefix, "/s") && strings.HasSuffix(prefix, "/") {
+		if i, err := strconv.Atoi(prefix[2 : len(prefix)-1]); err == nil && i >= 0 && i < len(l.subs) {
+			return l.subs[i], nil
+		}
+	}
+	return nil, fmt.Errorf("no storage at %q", prefix)
+}
+
+// ---------------------------------------------------------------------------------------------
+// world = what one case of the protocol manipulates
+
+type world struct {
+	subs    []*sub
+	sto     blobserver.Storage
+	writes  []int
+	reads   []int
+	min     int
+	fetches atomic.Int64
+}
+
+const maxStores = 8
+
+var natRe = regexp.MustCompile(`^[0-9]{1,9}$`)
+
+func natArg(w string) (int, bool) {
+	if !natRe.MatchString(w) {
+		return 0, false
+	}
+	n, err := strconv.Atoi(w)
+	return n, err == nil
+}
+
+func intArg(w string) (int, bool) {
+	if strings.HasPrefix(w, "-") {
+		n, ok := natArg(w[1:])
+		return -n, ok
+	}
+	return natArg(w)
+}
+
+func splitList(w string) []string {
+	if w == "-" {
+		return nil
+	}
+	return strings.Split(w, ",")
+}
+
+func natList(w string) ([]int, bool) {
+	var out []int
+	for _, t := range splitList(w) {
+		n, ok := natArg(t)
+		if !ok {
+			return nil, false
+		}
+		out = append(out, n)
+	}
+	return out, true
+}
+
+func nodup(l []int) bool {
+	seen := map[int]bool{}
+	for _, x := range l {
+		if seen[x] {
+			return false
+		}
+		seen[x] = true
+	}
+	return true
+}
+
+func isPermOfRange(l []int, n int) bool {
+	if len(l) != n || !nodup(l) {
+		return false
+	}
+	for _, x := range l {
+		if x >= n {
+			return false
+		}
+	}
+	return true
+}
+
+// keyArg: 28-byte digest in lower hex -> sha224 ref
+func keyArg(w string) (blob.Ref, bool) {
+	b, ok := hk.UnHex(w)
+	if !ok || len(b) != 28 {
+		return blob.Ref{}, false
+	}
+	return blob.Parse("sha224-" + w)
+}
+
+func keyList(w string) ([]blob.Ref, bool) {
+	var out []blob.Ref
+	for _, t := range splitList(w) {
+		r, ok := keyArg(t)
+		if !ok {
+			return nil, false
+		}
+		out = append(out, r)
+	}
+	return out, true
+}
+
+func showNats(l []int) string {
+	if len(l) == 0 {
+		return "-"
+	}
+	s := make([]string, len(l))
+	for i, x := range l {
+		s[i] = strconv.Itoa(x)
+	}
+	return strings.Join(s, ",")
+}
+
+func showSRs(l []blob.SizedRef) string {
+	if len(l) == 0 {
+		return "-"
+	}
+	s := make([]string, len(l))
+	for i, x := range l {
+		s[i] = fmt.Sprintf("%s:%d", x.Ref.Digest(), x.Size)
+	}
+	return strings.Join(s, ",")
+}
+
+func (w *world) holds(i int, br blob.Ref, content []byte) bool {
+	c, ok := w.subs[i].mem.BlobContents(br)
+	return ok && (content == nil || c == string(content))
+}
+
+func (w *world) contents(i int) []blob.SizedRef {
+	var out []blob.SizedRef
+	for _, s := range w.subs[i].mem.BlobrefStrings() {
+		br := blob.MustParse(s)
+		c, _ := w.subs[i].mem.BlobContents(br)
+		out = append(out, blob.SizedRef{Ref: br, Size: uint32(len(c))})
+	}
+	sort.Slice(out, func(a, b int) bool { return out[a].Ref.Digest() < out[b].Ref.Digest() })
+	return out
+}
+
+// ---------------------------------------------------------------------------------------------
+// quiescence: has ReceiveBlob consumed everything that was sent to it so far?
+
+var stackBuf = make([]byte, 1<<20)
+
+func goid() int {
+	var b [64]byte
+	n := runtime.Stack(b[:], false)
+	f := strings.Fields(string(b[:n]))
+	id, _ := strconv.Atoi(f[1])
+	return id
+}
+
+const recvFn = "perkeep.org/pkg/blobserver/replica.(*replicaStorage).ReceiveBlob"
+
+// recvState inspects the goroutines: how many uploads started by the ReceiveBlob call running in
+// goroutine gid are still alive, and whether that call is parked in `res := <-resc`.
+func recvState(gid int) (alive int, parked bool) {
+	n := runtime.Stack(stackBuf, true)
+	created := fmt.Sprintf("created by %s in goroutine %d\n", recvFn, gid)
+	head := fmt.Sprintf("goroutine %d [", gid)
+	for _, blk := range strings.Split(string(stackBuf[:n]), "\n\n") {
+		if strings.Contains(blk+"\n", created) {
+			alive++
+		}
+		if strings.HasPrefix(blk, head) {
+			rest := blk[len(head):]
+			state := rest[:strings.IndexByte(rest, ']')]
+			lines := strings.SplitN(blk, "\n", 3)
+			if strings.HasPrefix(state, "chan receive") && len(lines) > 1 && strings.HasPrefix(lines[1], recvFn+"(") {
+				parked = true
+			}
+		}
+	}
+	return
+}
+
+type recvResult struct {
+	sb  blob.SizedRef
+	err error
+}
+
+// ---------------------------------------------------------------------------------------------
+// the interpreter
+
+// NewExec returns a fresh interpreter of the C12 line protocol on the real code.
+func NewExec() func(words []string) string {
+	w := &world{}
+	return func(ws []string) string { return hk.Guard(func() string { return w.exec(ws) }) }
+}
+
+func (w *world) exec(ws []string) string {
+	if len(ws) == 0 {
+		return "bad-op"
+	}
+	ctx := context.Background()
+	switch {
+	case ws[0] == "stores" && len(ws) == 2:
+		n, ok := natArg(ws[1])
+		if !ok || n > maxStores {
+			return "bad-op"
+		}
+		w.subs = nil
+		for i := 0; i < n; i++ {
+			w.subs = append(w.subs, pooledSub(i, &w.fetches))
+		}
+		w.sto = nil
+		return "ok"
+
+	case ws[0] == "put" && len(ws) == 4:
+		i, ok1 := natArg(ws[1])
+		br, ok2 := keyArg(ws[2])
+		c, ok3 := hk.UnHex(ws[3])
+		if ws[3] == "-" {
+			c, ok3 = []byte{}, true
+		}
+		if !ok1 || !ok2 || !ok3 || i >= len(w.subs) {
+			return "bad-op"
+		}
+		if blob.RefFromBytes(c) != br {
+			return "bad-op"
+		}
+		if _, err := w.subs[i].mem.ReceiveBlob(ctx, br, bytes.NewReader(c)); err != nil {
+			return "err"
+		}
+		return "ok"
+
+	case ws[0] == "cfg" && len(ws) == 4:
+		var min *int
+		if ws[1] != "-" {
+			m, ok := intArg(ws[1])
+			if !ok {
+				return "bad-op"
+			}
+			min = &m
+		}
+		wl, ok1 := natList(ws[2])
+		rl, ok2 := natList(ws[3])
+		if !ok1 || !ok2 || !nodup(wl) || !nodup(rl) {
+			return "bad-op"
+		}
+		pre := func(l []int) []any {
+			out := []any{}
+			for _, i := range l {
+				out = append(out, fmt.Sprintf("/s%d/", i))
+			}
+			return out
+		}
+		conf := jsonconfig.Obj{"backends": pre(wl)}
+		if len(rl) > 0 {
+			conf["readBackends"] = pre(rl)
+		}
+		if min != nil {
+			conf["minWritesForSuccess"] = float64(*min)
+		}
+		sto, err := blobserver.CreateStorage("replica", &loader{w.subs}, conf)
+		if err != nil {
+			w.sto = nil
+			return "err"
+		}
+		w.sto = sto
+		w.writes = wl
+		w.reads = rl
+		if len(rl) == 0 {
+			w.reads = wl
+		}
+		v := reflect.ValueOf(sto).Elem()
+		w.min = int(v.FieldByName("minWritesForSuccess").Int())
+		return fmt.Sprintf("ok min=%d nw=%d nr=%d", w.min, v.FieldByName("replicas").Len(), v.FieldByName("readReplicas").Len())
+
+	case ws[0] == "down" && len(ws) == 3:
+		i, ok := natArg(ws[1])
+		if !ok || i >= len(w.subs) || (ws[2] != "0" && ws[2] != "1") {
+			return "bad-op"
+		}
+		w.subs[i].down.Store(ws[2] == "1")
+		return "ok"
+
+	case ws[0] == "recv" && len(ws) == 5:
+		br, ok1 := keyArg(ws[1])
+		c, ok2 := hk.UnHex(ws[2])
+		if ws[2] == "-" {
+			c, ok2 = []byte{}, true
+		}
+		if !ok1 || !ok2 || (ws[4] != "run" && ws[4] != "cancel") {
+			return "bad-op"
+		}
+		if w.sto == nil {
+			return "nocfg"
+		}
+		var order []int
+		kinds := map[int]string{}
+		for _, t := range splitList(ws[3]) {
+			pk := strings.Split(t, ":")
+			if len(pk) != 2 {
+				return "bad-op"
+			}
+			p, ok := natArg(pk[0])
+			if !ok {
+				return "bad-op"
+			}
+			switch pk[1] {
+			case "ok", "ws", "w0", "err", "es":
+			default:
+				return "bad-op"
+			}
+			order = append(order, p)
+			kinds[p] = pk[1]
+		}
+		if !isPermOfRange(order, len(w.writes)) {
+			return "bad-op"
+		}
+		if blob.RefFromBytes(c) != br {
+			return "bad-op"
+		}
+		out, _ := w.recv(br, c, order, kinds, ws[4] == "cancel")
+		return out
+
+	case ws[0] == "fetch" && len(ws) == 2:
+		br, ok := keyArg(ws[1])
+		if !ok {
+			return "bad-op"
+		}
+		if w.sto == nil {
+			return "nocfg"
+		}
+		w.fetches.Store(0)
+		rc, size, err := w.sto.Fetch(ctx, br)
+		tried := w.fetches.Load()
+		if err != nil {
+			switch {
+			case errors.Is(err, os.ErrNotExist):
+				return fmt.Sprintf("err notexist tried=%d", tried)
+			case errors.Is(err, errDown):
+				return fmt.Sprintf("err down tried=%d", tried)
+			}
+			return "err other"
+		}
+		if rc == nil {
+			return "nil"
+		}
+		data, rerr := io.ReadAll(rc)
+		rc.Close()
+		if rerr != nil || int(size) != len(data) || blob.RefFromBytes(data) != br {
+			return "corrupt"
+		}
+		return fmt.Sprintf("ok %d tried=%d", size, tried)
+
+	case ws[0] == "stat" && len(ws) == 3:
+		refs, ok1 := keyList(ws[1])
+		order, ok2 := natList(ws[2])
+		if !ok1 || !ok2 {
+			return "bad-op"
+		}
+		if w.sto == nil {
+			return "nocfg"
+		}
+		if len(order) != 0 && !isPermOfRange(order, len(w.reads)) {
+			return "bad-op"
+		}
+		got, err := w.stat(refs, order)
+		sort.SliceStable(got, func(a, b int) bool { return got[a].Ref.Digest() < got[b].Ref.Digest() })
+		if err != nil {
+			return showSRs(got) + " err"
+		}
+		return showSRs(got) + " ok"
+
+	case ws[0] == "enum" && len(ws) == 3:
+		after := ""
+		if ws[1] != "-" {
+			br, ok := keyArg(ws[1])
+			if !ok {
+				return "bad-op"
+			}
+			after = br.String()
+		}
+		limit, ok := natArg(ws[2])
+		if !ok {
+			return "bad-op"
+		}
+		if w.sto == nil {
+			return "nocfg"
+		}
+		for _, i := range w.reads {
+			if w.subs[i].down.Load() {
+				return "racy" // mergedEnumerate's error path races on errch; not part of the protocol
+			}
+		}
+		ch := make(chan blob.SizedRef, 4)
+		var got []blob.SizedRef
+		donec := make(chan struct{})
+		go func() {
+			for sb := range ch {
+				got = append(got, sb)
+			}
+			close(donec)
+		}()
+		err := w.sto.EnumerateBlobs(ctx, ch, after, limit)
+		<-donec
+		if err != nil {
+			return showSRs(got) + " err"
+		}
+		return showSRs(got) + " ok"
+
+	case ws[0] == "remove" && len(ws) == 2:
+		refs, ok := keyList(ws[1])
+		if !ok {
+			return "bad-op"
+		}
+		if w.sto == nil {
+			return "nocfg"
+		}
+		if err := w.sto.RemoveBlobs(ctx, refs); err != nil {
+			return "err"
+		}
+		return "ok"
+
+	case ws[0] == "dump" && len(ws) == 1:
+		if len(w.subs) == 0 {
+			return "-"
+		}
+		var parts []string
+		for i, s := range w.subs {
+			d := ""
+			if s.down.Load() {
+				d = "!"
+			}
+			parts = append(parts, fmt.Sprintf("%d=[%s]%s", i, showSRs(w.contents(i)), d))
+		}
+		return strings.Join(parts, " ")
+	}
+	return "bad-op"
+}
+
+// recv runs ReceiveBlob with the uploads' results arriving in `order` (positions in the write list).
+// It returns the protocol answer and the set of write sub-stores holding the blob (with the right
+// content) at the moment ReceiveBlob returned.
+func (w *world) recv(br blob.Ref, content []byte, order []int, kinds map[int]string, cancelLate bool) (string, []int) {
+	n := len(w.writes)
+	p := &recvPlan{posOf: map[int]int{}, kind: make([]string, n), entered: make(chan int, n)}
+	for pos, id := range w.writes {
+		p.posOf[id] = pos
+		p.kind[pos] = kinds[pos]
+		p.gate = append(p.gate, make(chan struct{}))
+		p.done = append(p.done, make(chan struct{}))
+	}
+	for _, id := range w.writes {
+		w.subs[id].rplan.Store(p)
+	}
+	defer func() {
+		for _, id := range w.writes {
+			w.subs[id].rplan.Store(nil)
+		}
+	}()
+	ctx, cancel := context.WithCancel(context.Background())
+	defer cancel()
+	resc := make(chan recvResult, 1)
+	gidc := make(chan int, 1)
+	go func() {
+		gidc <- goid()
+		sb, err := w.sto.ReceiveBlob(ctx, br, bytes.NewReader(content))
+		resc <- recvResult{sb, err}
+	}()
+	gid := <-gidc
+	for i := 0; i < n; i++ {
+		<-p.entered
+	}
+	var res *recvResult
+	released := 0
+	deadline := time.Now().Add(20 * time.Second)
+	for _, pos := range order {
+		close(p.gate[pos])
+		<-p.done[pos]
+		released++
+		// wait until the result has been consumed: either ReceiveBlob returned, or the upload's
+		// goroutine is gone (it has sent on resc) and ReceiveBlob is parked in the next receive
+		for res == nil {
+			select {
+			case r := <-resc:
+				res = &r
+				continue
+			default:
+			}
+			alive, parked := recvState(gid)
+			if alive == n-released && parked {
+				break
+			}
+			if released == n && alive == 0 {
+				// all results sent; ReceiveBlob is on its way out
+				r := <-resc
+				res = &r
+				break
+			}
+			if time.Now().After(deadline) {
+				return "hang", nil
+			}
+			runtime.Gosched()
+		}
+		if res != nil {
+			break
+		}
+	}
+	if res == nil {
+		select {
+		case r := <-resc:
+			res = &r
+		case <-time.After(20 * time.Second):
+			return "hang", nil
+		}
+	}
+	var held []int
+	for _, id := range w.writes {
+		if w.holds(id, br, content) {
+			held = append(held, id)
+		}
+	}
+	sort.Ints(held)
+	if cancelLate {
+		cancel()
+	}
+	for _, pos := range order[released:] {
+		close(p.gate[pos])
+		<-p.done[pos]
+	}
+	for time.Now().Before(deadline) {
+		if alive, _ := recvState(gid); alive == 0 {
+			break
+		}
+		runtime.Gosched()
+	}
+	var out string
+	var ie *injErr
+	switch {
+	case res.err == nil && !res.sb.Ref.Valid():
+		out = "zero"
+	case res.err == nil:
+		if res.sb.Ref != br || int(res.sb.Size) != len(content) {
+			out = "ack-wrong-sb"
+		} else {
+			out = "ack"
+		}
+	case errors.As(res.err, &ie):
+		out = fmt.Sprintf("err replica %d", ie.pos)
+	default:
+		var got, want int
+		if _, e := fmt.Sscanf(res.err.Error(), "replica: upload shard reported size %d, expected %d", &got, &want); e == nil {
+			out = fmt.Sprintf("err wrongsize %d %d", got, want)
+		} else {
+			out = "err other"
+		}
+	}
+	return out + " held=" + showNats(held), held
+}
+
+// stat runs StatBlobs with the up read replicas delivering one after the other in `order` (positions
+// in the read list; empty = all at once); the down ones fail after every report has been delivered.
+func (w *world) stat(refs []blob.Ref, order []int) ([]blob.SizedRef, error) {
+	n := len(w.reads)
+	p := &statPlan{posOf: map[int]int{}}
+	for pos, id := range w.reads {
+		p.posOf[id] = pos
+		p.gate = append(p.gate, make(chan struct{}))
+		p.done = append(p.done, make(chan struct{}))
+	}
+	for _, id := range w.reads {
+		w.subs[id].splan.Store(p)
+	}
+	defer func() {
+		for _, id := range w.reads {
+			w.subs[id].splan.Store(nil)
+		}
+	}()
+	var mu sync.Mutex
+	var got []blob.SizedRef
+	errc := make(chan error, 1)
+	go func() {
+		errc <- w.sto.StatBlobs(context.Background(), refs, func(sb blob.SizedRef) error {
+			mu.Lock()
+			got = append(got, sb)
+			mu.Unlock()
+			return nil
+		})
+	}()
+	isDown := func(pos int) bool { return w.subs[w.reads[pos]].down.Load() }
+	if len(order) == 0 {
+		for pos := 0; pos < n; pos++ {
+			if !isDown(pos) {
+				close(p.gate[pos])
+			}
+		}
+		for pos := 0; pos < n; pos++ {
+			if !isDown(pos) {
+				<-p.done[pos]
+			}
+		}
+	} else {
+		for _, pos := range order {
+			if !isDown(pos) {
+				close(p.gate[pos])
+				<-p.done[pos]
+			}
+		}
+	}
+	for pos := 0; pos < n; pos++ {
+		if isDown(pos) {
+			close(p.gate[pos])
+			<-p.done[pos]
+		}
+	}
+	err := <-errc
+	mu.Lock()
+	defer mu.Unlock()
+	return append([]blob.SizedRef(nil), got...), err
+}
